@@ -714,6 +714,23 @@ Theorem C05_tr_no_answer_without_call :
 Proof. exact Tcp.Once.t_no_answer_without_call. Qed.
 Print Assumptions C05_tr_no_answer_without_call.
 
+(* malformed / foreign addresses: a dial the transport refuses (Err) changes nothing: no future, no pending_dials entry, nothing owed *)
+Theorem C05_tr_refused_dial_no_effect :
+  forall t s g c a,
+  Tcp.Variants.expect_of t a = None ->
+  Tcp.Variants.tstep t s (Tcp.Variants.XDial c a) = (s, [Tcp.Model.ORet false]) /\
+  Tcp.Model.gstep (Tcp.Variants.ev_of t (Tcp.Variants.XDial c a)) (snd (Tcp.Variants.tstep t s (Tcp.Variants.XDial c a))) g = g.
+Proof. exact Tcp.VariantTheorems.t_refused_dial_no_effect. Qed.
+Print Assumptions C05_tr_refused_dial_no_effect.
+
+(* ... and an open none of whose addresses the transport takes is answered by OpenFailure at the very next poll: nothing is stuck *)
+Theorem C05_tr_open_unparsable_fails :
+  forall t s g c l e,
+  Tcp.VariantTheorems.treach t s g -> Tcp.Model.caller_ok g (Tcp.Variants.ev_of t (Tcp.Variants.XOpen c l)) = true -> Tcp.Variants.attempts_of t l = [] -> Tcp.Model.polls e = true ->
+  In (Tcp.Model.OEv (Tcp.Model.TOpenFailure c)) (snd (Tcp.Variants.tstep t (fst (Tcp.Variants.tstep t s (Tcp.Variants.XOpen c l))) (Tcp.Variants.XEv e))).
+Proof. exact Tcp.VariantTheorems.t_open_unparsable_fails. Qed.
+Print Assumptions C05_tr_open_unparsable_fails.
+
 
 (* non-vacuity, WebSocket: dial refuses an address without /p2p and a TCP address; of three addresses
    of an open only the WebSocket one is an attempt, answered by the wrong identity: OpenFailure; a
